@@ -112,7 +112,7 @@ pub fn run_tpipeline(case: &TCase) -> Result<TRun, String> {
   let counters = Arc::new(Counters::default());
   let hots: Vec<SubjectThreads<Val, E>> = (0..case.n_hot).map(|_| SubjectThreads::default()).collect();
   let ts = TSim::new(shr.clone(), &case.sched, case.threads.len(), case.workers, 30_000);
-  let env = EnvS { hots: hots.clone(), counters };
+  let env = EnvS::new(hots.clone(), counters);
   let handle = ts.with_pool(|| std::panic::catch_unwind(std::panic::AssertUnwindSafe(|| build_shared(&case.root, &env).actual_subscribe(Probe(log.clone())))));
   let handle = match handle {
     Ok(h) => Arc::new(Mutex::new(Some(h))),
@@ -122,7 +122,7 @@ pub fn run_tpipeline(case: &TCase) -> Result<TRun, String> {
   let mut bodies: Vec<Body> = Vec::new();
   for (t, ops) in case.threads.iter().enumerate() {
     let ops = ops.clone();
-    let hots = hots.clone();
+    let env = env.clone();
     let handle = handle.clone();
     let cut = cut.clone();
     bodies.push(Box::new(move || {
@@ -130,15 +130,11 @@ pub fn run_tpipeline(case: &TCase) -> Result<TRun, String> {
       for op in &ops {
         match op {
           TOp::Emit { inp, ev } => {
-            let i = *inp % hots.len();
-            match ev {
-              In::Next => {
-                n += 1;
-                hots[i].clone().next(Val::I((t as i64 + 1) * 1000 + (i as i64) * 100 + n))
-              }
-              In::Err => hots[i].clone().error(t as E + 1),
-              In::Complete => hots[i].clone().complete(),
+            let i = *inp % env.hots.len();
+            if *ev == In::Next {
+              n += 1;
             }
+            env.emit(i, ev, Val::I((t as i64 + 1) * 1000 + (i as i64) * 100 + n), t as E + 1)
           }
           TOp::Unsub => {
             let h = handle.lock().unwrap().take();
@@ -477,7 +473,7 @@ impl Scenario for C10Share {
     let w = World::with_shared(shr.clone());
     let counters = Arc::new(Counters::default());
     let hots: Vec<SubjectThreads<Val, E>> = (0..case.n_hot).map(|_| SubjectThreads::default()).collect();
-    let env = EnvS { hots: hots.clone(), counters };
+    let env = EnvS::new(hots.clone(), counters);
     let subs = Arc::new(std::sync::atomic::AtomicUsize::new(0));
     let shared_obs = match std::panic::catch_unwind(std::panic::AssertUnwindSafe(|| {
       crate::props::c11::CountSrc::new(build_shared(&case.root, &env), subs.clone()).share_threads()
@@ -514,7 +510,7 @@ impl Scenario for C10Share {
     let mut bodies: Vec<Body> = Vec::new();
     for (t, ops) in case.threads.iter().enumerate() {
       let ops = ops.clone();
-      let hots = hots.clone();
+      let env = env.clone();
       let logs = logs.clone();
       let slots = slots[t].clone();
       let so = shared_obs.clone();
@@ -525,15 +521,11 @@ impl Scenario for C10Share {
         for (i, op) in ops.iter().enumerate() {
           match op {
             SOp::Emit { inp, ev } => {
-              let k = *inp % hots.len();
-              match ev {
-                In::Next => {
-                  n += 1;
-                  hots[k].clone().next(Val::I((t as i64 + 1) * 1000 + n))
-                }
-                In::Err => hots[k].clone().error(1),
-                In::Complete => hots[k].clone().complete(),
+              let k = *inp % env.hots.len();
+              if *ev == In::Next {
+                n += 1;
               }
+              env.emit(k, ev, Val::I((t as i64 + 1) * 1000 + n), 1)
             }
             SOp::Subscribe => {
               let l = logs[slots[i].unwrap()].clone();
@@ -686,7 +678,7 @@ impl Scenario for C17Threads {
     let counters = Arc::new(Counters::default());
     let hots: Vec<SubjectThreads<Val, E>> = vec![SubjectThreads::default()];
     let ts = TSim::new(shr.clone(), &case.sched, 2, case.workers, 30_000);
-    let env = EnvS { hots: hots.clone(), counters };
+    let env = EnvS::new(hots.clone(), counters);
     let handle = ts.with_pool(|| std::panic::catch_unwind(std::panic::AssertUnwindSafe(|| build_shared(&case.root, &env).actual_subscribe(Probe(log.clone())))));
     let handle = match handle {
       Ok(h) => Arc::new(Mutex::new(Some(h))),
@@ -695,19 +687,15 @@ impl Scenario for C17Threads {
     let samples: Arc<Mutex<Vec<(u64, bool)>>> = Arc::new(Mutex::new(Vec::new()));
     let mut bodies: Vec<Body> = Vec::new();
     {
-      let hots = hots.clone();
+      let env = env.clone();
       let emits = case.emits.clone();
       bodies.push(Box::new(move || {
         let mut n = 0i64;
         for (_, ev) in &emits {
-          match ev {
-            In::Next => {
-              n += 1;
-              hots[0].clone().next(Val::I(n))
-            }
-            In::Err => hots[0].clone().error(1),
-            In::Complete => hots[0].clone().complete(),
+          if *ev == In::Next {
+            n += 1;
           }
+          env.emit(0, ev, Val::I(n), 1);
           harness_yield("between-ops");
         }
       }));
